@@ -289,6 +289,58 @@ def gen_cmd(rng, ctr, name, depth, prof, reserved=()):
     return c
 
 
+def add_usage_forms(rng, ctr, c, prof):
+    """round 3: argument groups (required or not), `requires` rules between arguments and towards groups, the
+    settings that change the form of the usage line, subcommand_value_name.  Members of groups and targets of
+    rules are drawn from the arguments that are not `hide`n (a hidden member of a listed group is printed by
+    format_group: observation C12_usage_hidden_group_member_shown) and not global; applied to every level."""
+    n = ctr.next()
+    cand = [a for a in c["args"] if not a.get("hide") and not a.get("global")]
+    groups = []
+    if cand and rng.random() < prof.get("p_group", 0.6):
+        for gi in range(rng.choice([1, 1, 2])):
+            k = rng.choice([1, 2, 2, 3])
+            mem = rng.sample(cand, min(k, len(cand)))
+            g = {"id": "gr" + n + "z" + "ab"[gi], "args": [a["id"] for a in mem], "required": rng.random() < 0.6,
+                 "multiple": rng.random() < 0.3, "requires": []}
+            groups.append(g)
+    # requires rules: a -> b (argument or group), chains allowed, conditional rules (ignored by the usage line) too
+    targets = [a["id"] for a in cand] + [g["id"] for g in groups]
+    for a in c["args"]:
+        if a.get("global"):
+            continue          # a global argument is copied into the subcommands, where its targets do not exist
+        if targets and rng.random() < prof.get("p_requires", 0.3):
+            ts = [t for t in rng.sample(targets, min(len(targets), rng.choice([1, 1, 2]))) if t != a["id"]]
+            if ts:
+                a["items"].append("(requires %s)" % " ".join(hexs(t) for t in ts))
+                a["requires"] = ts
+        if targets and a.get("action") in ("set", "append") and rng.random() < 0.08:
+            t = rng.choice(targets)
+            if t != a["id"]:
+                a["items"].append("(requires_if %s %s)" % (hexs("v"), hexs(t)))
+    for g in groups:
+        if g["required"] and rng.random() < 0.3:
+            ts = [t for t in rng.sample(targets, 1) if t != g["id"]]
+            g["requires"] = ts
+    c["groups"] = groups
+    if c["subs"]:
+        r = rng.random()
+        if r < 0.25:
+            c["sets"].append("subcommand_negates_reqs")
+        elif r < 0.45:
+            c["sets"].append("args_conflicts_with_subcommands")
+        if rng.random() < 0.3 and "subcommand_required" not in c["sets"]:
+            c["sets"].append("subcommand_required")
+        if rng.random() < 0.4:
+            c["sub_valname"] = "SV" + n + "z"
+    elif rng.random() < 0.15:
+        c["sets"].append("allow_external_subcommands")
+        if rng.random() < 0.5:
+            c["sub_valname"] = "SV" + n + "z"
+    for sc in c["subs"]:
+        add_usage_forms(rng, ctr, sc, prof)
+
+
 def cmd_sx(c):
     it = [hexs(c["name"])] + list(c["items"])
     sets = list(c.get("sets", []))
@@ -304,8 +356,19 @@ def cmd_sx(c):
         it.append("(x-next-line)")
     if c.get("order") is not None:
         it.append("(x-order %d)" % c["order"])
+    if c.get("sub_valname"):
+        it.append("(x-sub-valname %s)" % hexs(c["sub_valname"]))
     for a in c["args"]:
         it.append("(arg %s %s)" % (hexs(a["id"]), " ".join(a["items"])))
+    for g in c.get("groups", []):
+        gi = [hexs(g["id"]), "(args %s)" % " ".join(hexs(x) for x in g["args"])]
+        if g["required"]:
+            gi.append("(required)")
+        if g["multiple"]:
+            gi.append("(multiple)")
+        if g["requires"]:
+            gi.append("(requires %s)" % " ".join(hexs(x) for x in g["requires"]))
+        it.append("(group %s)" % " ".join(gi))
     for s in c["subs"]:
         it.append("(sub %s)" % cmd_sx(s))
     return "(cmd %s)" % " ".join(it)
@@ -354,6 +417,23 @@ def gen_random(tier, rng, n):
             else:
                 wh = which_sx(rng.choice(["flag-h", "flag-help", "sub-help"]), rng.choice(paths))
             cases.append(case_sx(sx, w, wh))
+    return cases
+
+
+def gen_usage_forms(tier, rng, n):
+    """round 3: the usage line with argument groups, requires rules and the subcommand forms; every which"""
+    cases = []
+    for _ in range(n):
+        ctr = Ctr()
+        prof = {"nflag": [1, 2, 3], "nopt": [1, 2, 3], "npos": [0, 1, 2, 3], "nsub": [0, 1, 2], "p_nohelp": 0.2,
+                "p_group": rng.choice([0.3, 0.9]), "p_requires": rng.choice([0.2, 0.6])}
+        c = gen_cmd(rng, ctr, "p", rng.choice([0, 1, 1, 2]), prof)
+        add_usage_forms(rng, ctr, c, prof)
+        sx = cmd_sx(c)
+        paths = all_paths(c)
+        for wh in ["usage", rng.choice(["short", "long"]),
+                   which_sx(rng.choice(["flag-h", "flag-help", "sub-help"]), rng.choice(paths))]:
+            cases.append(case_sx(sx, rng.choice([0, 40, 80, 100, 200]), wh))
     return cases
 
 
@@ -558,6 +638,8 @@ def dec_arg(l):
             a["hide_env_values"] = True
         elif h == "x-hide-default":
             a["hide_default"] = True
+        elif h == "requires":
+            a.setdefault("requires", []).extend(s_(x) for x in r)
         elif h == "x-pv":
             pv = {"name": s_(r[0])}
             for e in r[1:]:
@@ -595,6 +677,18 @@ def dec_cmd(l):
             c["order"] = int(r[0])
         elif h == "arg":
             c["args"].append(dec_arg(r))
+        elif h == "group":
+            g = {"id": s_(r[0]), "args": [], "required": False, "requires": []}
+            for e in r[1:]:
+                if e[0] == "args":
+                    g["args"] = [s_(x) for x in e[1:]]
+                elif e[0] == "required":
+                    g["required"] = True
+                elif e[0] == "requires":
+                    g["requires"] = [s_(x) for x in e[1:]]
+            c.setdefault("groups", []).append(g)
+        elif h == "x-sub-valname":
+            c["sub_valname"] = s_(r[0])
         elif h == "sub":
             c["subs"].append(dec_cmd(r[0][1:]))
     return c
@@ -907,7 +1001,9 @@ def describe(cases, name):
         d["which=" + k] = sum(1 for c in cases if "(which %s)" % k in c or "(which (%s" % k in c)
     for k in ("(action count)", "(x-heading", "(x-order", "(x-next-line)", "(x-hide-short)", "(x-hide-long)", "(x-pv",
               "(x-hide-pv)", "hide", "disable_help_flag", "(sub ", "(short_flag", "(x-long-help", "reqeq", "last",
-              "global", "(env ", "(x-hide-env)", "(x-hide-env-values)", "(default ", "(x-hide-default)", "(alias ", " v)", "(salias "):
+              "global", "(env ", "(x-hide-env)", "(x-hide-env-values)", "(default ", "(x-hide-default)", "(alias ", " v)", "(salias ",
+              "(group ", "(required)", "(requires ", "(requires_if ", "subcommand_negates_reqs", "args_conflicts_with_subcommands",
+              "subcommand_required", "allow_external_subcommands", "(x-sub-valname"):
         d["has " + k] = sum(1 for c in cases if k in c)
     ws = [int(re.search(r"\(width (\d+)\)", c).group(1)) for c in cases if "(width" in c]
     d["widths distinct"] = len(set(ws))
@@ -922,6 +1018,7 @@ def streams(tier, rng):
     adv = gen_adversarial(tier, rng, 300 if q else 12000)
     lev = gen_levels(tier, rng, 60 if q else 2000)
     bnd = gen_boundary(tier, rng)
+    usf = gen_usage_forms(tier, rng, 400 if q else 8000)
     out = [
         Stream("help-random", rnd, oracle=oracle, area="help", project=project, nontrivial=nontrivial,
                describe=describe(rnd, "random")),
@@ -933,6 +1030,8 @@ def streams(tier, rng):
                describe=describe(lev, "levels")),
         Stream("help-boundary", bnd, oracle=oracle, area="help", project=project, nontrivial=nontrivial,
                describe=describe(bnd, "boundary")),
+        Stream("help-usage-forms", usf, oracle=oracle, area="help", project=project, nontrivial=nontrivial,
+               describe=describe(usf, "usage-forms")),
         Stream("help-templates", gen_templates(tier, rng, 200 if q else 4000), oracle=template_oracle, area=None,
                nontrivial=nontrivial),
         Stream("help-f32", ["(helpf32 %d %d)" % (t, w) for (t, w) in ([(300, 300)] if q else [(1200, 1200), (70000, 40)])],
